@@ -7,6 +7,7 @@ mod c12;
 mod c13;
 mod c14;
 mod c15;
+mod c17;
 mod c19;
 
 use simk::runner::{harness_error, main_for, Check};
@@ -26,6 +27,7 @@ fn main() {
         "C13" => &c13::C13,
         "C14" => &c14::C14,
         "C15" => &c15::C15,
+        "C17" => &c17::C17,
         "C19" => &c19::C19,
         o => harness_error(&format!("no check for property {o}")),
     };
